@@ -149,7 +149,11 @@ Record cfg := mkcfg {
   c_ooo : bool;              (* allowOutOfOrderUploads *)
   c_lbl : option N;          (* external labels of the shipper (None: empty) *)
   c_fault : fault;
-  c_cids : list N            (* oracle: content ids of the meta.json files this sync uploads, in order *)
+  c_cids : list N;           (* oracle: content ids of the meta.json files this sync uploads, in order *)
+  c_skip : bool;             (* skipCorruptedBlocks *)
+  c_corrupt : list N;        (* block directories whose local meta.json cannot be read *)
+  c_conc : bool;             (* upload concurrency > 1: the chunk files of a block are uploaded in any order *)
+  c_orders : list (list N)   (* oracle: per attempted upload, the order in which the chunk files went out *)
 }.
 
 (* the overlap check of Sync: skipped for level-1 blocks and with out-of-order uploads; the
@@ -184,7 +188,7 @@ Definition eligible (c : cfg) (i : linfo) : bool :=
 (* the for-loop of Sync. None: unknown block / bad order oracle. *)
 Fixpoint sync_loop (ph : list uphase) (U : univ) (L : locals) (c : cfg) (has : list N)
          (blocks : list N) (b : bucket) (n : nat) (ops : list bop) (up : list N) (errs : nat)
-         (cids : list N) (ck : option (list (Z * Z))) : option sres :=
+         (cids : list N) (ck : option (list (Z * Z))) (ords : list (list N)) : option sres :=
   match blocks with
   | [] =>
       match tick (c_fault c) n with
@@ -194,33 +198,37 @@ Fixpoint sync_loop (ph : list uphase) (U : univ) (L : locals) (c : cfg) (has : l
   | id :: r =>
       match linfo_of L id, ublock U id with
       | Some i, Some bl =>
-          if memN id has then sync_loop ph U L c has r b n ops (up ++ [id]) errs cids ck
-          else if negb (l_nonempty i) then sync_loop ph U L c has r b n ops up errs cids ck
-          else if negb (N.leb (l_level i) 1) && negb (c_uc c) then sync_loop ph U L c has r b n ops up errs cids ck
+          if memN id has then sync_loop ph U L c has r b n ops (up ++ [id]) errs cids ck ords
+          else if negb (l_nonempty i) then sync_loop ph U L c has r b n ops up errs cids ck ords
+          else if negb (N.leb (l_level i) 1) && negb (c_uc c) then sync_loop ph U L c has r b n ops up errs cids ck ords
           else
             match tick (c_fault c) n with          (* s.bucket.Exists(meta.json) *)
             | OpCrash => Some (mksres b ops None false)
             | OpFail => Some (mksres b ops None false)
             | OpOk =>
-                if bhas b (id, FMeta) then sync_loop ph U L c has r b (S n) ops (up ++ [id]) errs cids ck
+                if bhas b (id, FMeta) then sync_loop ph U L c has r b (S n) ops (up ++ [id]) errs cids ck ords
                 else
                   match overlap_gate L c b (S n) ck i with
                   | GStop => Some (mksres b ops None false)
                   | GGo n1 ck' =>
                   match c_lbl c with
                   | None =>          (* block.Upload refuses empty external labels before any bucket call *)
-                      if c_ooo c then sync_loop ph U L c has r b n1 ops up (S errs) cids ck'
+                      if c_ooo c then sync_loop ph U L c has r b n1 ops up (S errs) cids ck' ords
                       else Some (mksres b ops None false)
                   | Some lbl =>
                       let cid := hd 0%N cids in
-                      match upload_ops ph U id (map fst (b_chunks bl)) cid lbl with
+                      (* with upload concurrency the chunk files go out in any order; a failing
+                         operation then leaves the other in-flight uploads undetermined: not modelled *)
+                      let order := if c_conc c then hd (map fst (b_chunks bl)) ords else map fst (b_chunks bl) in
+                      if c_conc c && (match c_fault c with FailAt _ => true | _ => false end) then None else
+                      match upload_ops ph U id order cid lbl with
                       | None => None
                       | Some l =>
                           match run_ups (c_fault c) n1 b [] l with
                           | (b', n', done, UDone) =>
-                              sync_loop ph U L c has r b' n' (ops ++ done) (up ++ [id]) errs (tl cids) ck'
+                              sync_loop ph U L c has r b' n' (ops ++ done) (up ++ [id]) errs (tl cids) ck' (tl ords)
                           | (b', n', done, UFailed) =>
-                              if c_ooo c then sync_loop ph U L c has r b' n' (ops ++ done) up (S errs) cids ck'
+                              if c_ooo c then sync_loop ph U L c has r b' n' (ops ++ done) up (S errs) cids ck' ords
                               else Some (mksres b' (ops ++ done) None false)
                           | (b', n', done, UCrashed) => Some (mksres b' (ops ++ done) None false)
                           end
@@ -237,7 +245,13 @@ Definition sync (U : univ) (L : locals) (c : cfg) (mf : option (list N)) (b : bu
   | None => None
   | Some ph =>
       let has := match mf with Some l => l | None => [] end in
-      sync_loop ph U L c has (sort_blocks L (c_present c)) b 0 [] [] 0 (c_cids c) None
+      (* blockMetasFromOldest: an unreadable local meta.json ends the Sync at once, unless
+         skipCorruptedBlocks: then the block is left out and the Sync returns an error at the end *)
+      if (match c_corrupt c with [] => false | _ => true end) && negb (c_skip c)
+      then Some (mksres b [] None false)
+      else sync_loop ph U L c has
+             (sort_blocks L (filter (fun id => negb (memN id (c_corrupt c))) (c_present c)))
+             b 0 [] [] (List.length (c_corrupt c)) (c_cids c) None (c_orders c)
   end.
 
 (* ---- cases ---- *)
@@ -302,7 +316,7 @@ Definition is_nofault (f : fault) : bool := match f with NoFault => true | _ => 
 (* a sync without fault and with external labels that returns an error must have a compacted
    block that is blocked by an overlap in the bucket (leftovers of crashed uploads are no reason) *)
 Definition wedge_ok (L : locals) (c : cfg) (ret : bool) (post : bucket) : bool :=
-  if is_nofault (c_fault c) && negb ret then
+  if is_nofault (c_fault c) && negb ret && (match c_corrupt c with [] => true | _ => false end) then
     match c_lbl c with
     | None => true
     | Some lbl =>
